@@ -5,6 +5,7 @@
 package c11
 
 import (
+	"flag"
 	"fmt"
 	"strconv"
 	"testing"
@@ -99,13 +100,13 @@ type Op struct {
 
 type Case struct{ Ops []Op }
 
-var kinds = []string{"addValue", "addParam", "addF2", "addF3", "addFA", "connect", "connect", "connect", "connect", "disconnect", "set", "set", "set", "read", "read", "read", "read", "state"}
+var kinds = []string{"addValue", "addParam", "addCliParam", "setMany", "addF2", "addF3", "addFA", "connect", "connect", "connect", "connect", "disconnect", "set", "set", "set", "read", "read", "read", "read", "state"}
 
 func genCase(t *rapid.T) Case {
 	min := rapid.IntRange(5, 40).Draw(t, "minSteps")
 	// a prefix that builds a small graph, so that connects and reads have something to work on
 	prefix := rapid.SliceOfN(rapid.Custom(func(t *rapid.T) Op {
-		return Op{K: rapid.SampledFrom([]string{"addValue", "addParam", "addF2", "addF3", "addFA", "connect", "connect"}).Draw(t, "k"), A: rapid.IntRange(0, 13).Draw(t, "a"), B: rapid.IntRange(0, 13).Draw(t, "b"), V: rapid.IntRange(0, 9).Draw(t, "v")}
+		return Op{K: rapid.SampledFrom([]string{"addValue", "addParam", "addCliParam", "addF2", "addF3", "addFA", "connect", "connect"}).Draw(t, "k"), A: rapid.IntRange(0, 13).Draw(t, "a"), B: rapid.IntRange(0, 13).Draw(t, "b"), V: rapid.IntRange(0, 9).Draw(t, "v")}
 	}), 4, 16).Draw(t, "prefix")
 	body := rapid.SliceOfN(rapid.Custom(func(t *rapid.T) Op {
 		return Op{K: rapid.SampledFrom(kinds).Draw(t, "k"), A: rapid.IntRange(0, 13).Draw(t, "a"), B: rapid.IntRange(0, 13).Draw(t, "b"), V: rapid.IntRange(0, 9).Draw(t, "v")}
@@ -220,12 +221,29 @@ func runCase(c Case, o *vh.Obs) *vh.Failure {
 			}
 		}
 		switch op.K {
-		case "addValue", "addParam", "addF2", "addF3", "addFA":
+		case "addValue", "addParam", "addCliParam", "addF2", "addF3", "addFA":
 			if len(ns) >= 14 {
 				continue
 			}
 			clock++
 			switch op.K {
+			case "addCliParam":
+				// a parameter that also has a command-line flag, parsed (B odd) or left at its default:
+				// precedence is applied update > parsed flag > default
+				p := &parameter.Value[int]{Name: fmt.Sprintf("c%d", len(ns)), DefaultValue: op.V, CLI: &parameter.CliConfig[int]{FlagName: fmt.Sprintf("c%d", len(ns)), Usage: "u"}}
+				fs := flag.NewFlagSet("c11", flag.ContinueOnError)
+				p.InitializeForCLI(fs)
+				start := op.V
+				if op.B%2 == 1 {
+					start = op.V + 1 + op.B%7
+					if err := fs.Parse([]string{fmt.Sprintf("--c%d=%d", len(ns), start)}); err != nil {
+						return vh.Failf("harness/flag-parse", "%v", err)
+					}
+					o.Class("cli-flag-parsed")
+				}
+				ns = append(ns, &mnode{kind: 1, val: start, node: p, out: func() int { return p.Value() },
+					set:    func(v int) error { _, err := p.ApplyMessage([]byte(strconv.Itoa(v))); return err },
+					outRef: func() nodes.NodeOutputReference { return p.Out() }, changed: clock})
 			case "addValue":
 				p := nodes.Value(op.V)
 				ns = append(ns, &mnode{kind: 0, val: op.V, node: p, out: func() int { return p.Value() }, set: func(v int) error { p.Set(v); return nil },
@@ -302,6 +320,25 @@ func runCase(c Case, o *vh.Obs) *vh.Failure {
 			n.changed = clock
 			updates++
 			o.Class("disconnect")
+		case "setMany":
+			// a burst of N updates of one source with no read in between (N around version-counter boundaries)
+			if len(srcs) == 0 {
+				continue
+			}
+			n := ns[srcs[op.A%len(srcs)]]
+			burst := []int{2, 255, 256, 257, 512, 1024}[op.B%6]
+			for k := 0; k < burst; k++ {
+				v := (op.V + k) % 10
+				if err := n.set(v); err != nil {
+					return vh.Failf("set-error", "step %d: setting a source failed: %v", step, err)
+				}
+				n.val = v
+				n.sets++
+			}
+			clock++
+			n.changed = clock
+			updates++
+			o.Class(fmt.Sprintf("set-burst/%d", burst))
 		case "set":
 			if len(srcs) == 0 {
 				continue
